@@ -12,7 +12,8 @@ import RV.Base.Proto
   N-Triples lines; terms as  i:IRI | b:LABEL | l:LEX:DT|*:LANG|*  (code points):
     ntparse LINE       -> ok S P O | none        the W3C line grammar applied to a line rdflib wrote
     ntrow S P O        -> code points of the line the writer model (`_nt_row`) produces
-    xmltree BASE|* S P O S P O …  -> the element tree of the `xml` serializer model (`xmlTree`): blocks joined by ` | `,
+    xmltree BASEARG|* STOREBASE|* XMLBASEOPT|* S P O S P O …  -> `R DECLARED|*` (the xml:base the document declares, `xmlBases`)
+                          and the element tree of the `xml` serializer model (`xmlDocument`): blocks joined by ` | `,
                           block = `S ATTRS` then ` P TAG ATTRS TEXT` per property element; ATTRS = `key=cps;…` or `-`
                           (keys about, nodeID, resource, datatype, lang); terms as for ntrow
     ntdoc TEXT         -> ok N S P O S P O … | none   the whole document through the model reader (`readDoc`): line grammar
@@ -211,9 +212,11 @@ def xtriples? : List String → Option (List XTriple)
   | _ => none
 
 def step' (s : Unit) : List String → Unit × String
-  | "xmltree" :: b :: rest => match optCps? b, xtriples? rest with
-    | some base, some g => (s, " | ".intercalate ((xmlTree base g).map showXSubj))
-    | _, _ => (s, "bad-op")
+  | "xmltree" :: b :: sb :: xb :: rest => match optCps? b, optCps? sb, optCps? xb, xtriples? rest with
+    | some base, some sbase, some xbase, some g =>
+      (s, " | ".intercalate (("R " ++ showOptCps (xmlDocument base sbase xbase g).1) ::
+            (xmlDocument base sbase xbase g).2.map showXSubj))
+    | _, _, _, _ => (s, "bad-op")
   | ["ntdoc", a] => match cps? a with
     | some x => (s, showDoc (readDoc [] (splitLines [] x))) | none => (s, "bad-op")
   | "choice" :: rest => match stepChoice rest with
